@@ -48,7 +48,7 @@ def _variant(rng, s):
     return "".join(ch.upper() if rng.random() < 0.5 else ch.lower() for ch in s)
 
 def generate(rng, tier):
-    n = 320 if tier == "quick" else 6000
+    n = 320 if tier == "quick" else 15000
     cases = []
     for _ in range(n):
         ports = [_port(rng, k) for k in range(rng.choice([0, 1, 1, 2, 3, 4, 6]))]
